@@ -1261,3 +1261,291 @@ def monitor_c17(sched, res):
 def summarize(res):
     return {"status": res.get("status"), "why": res.get("why"), "gomaxprocs": res.get("gomaxprocs"),
             "obs": res.get("obs", [])[:200], "stacks": (res.get("stacks") or "")[:4000]}
+
+
+# --------------------------------------------------------------------------
+# C17: hostile and timing scripts
+
+
+def inventory_keys():
+    """The option / detail keys client.go reads on router-controlled data,
+    from the generated site inventory (coq/gen/GenClient.v) and the constant
+    table of wamp/options.go."""
+    consts = {}
+    opt = os.path.join(common.REPO, "wamp", "options.go")
+    if os.path.exists(opt):
+        for m in re.finditer(r'^\s*(Opt\w+)\s*=\s*"([^"]*)"', open(opt).read(), re.M):
+            consts[m.group(1)] = m.group(2)
+    keys = []
+    path = os.path.join(common.COQ, "gen", "GenClient.v")
+    if os.path.exists(path):
+        for m in re.finditer(r'mk_site "[^"]*" \d+ \w+ "([^"]*)"', open(path).read()):
+            for c in re.findall(r"wamp\.(Opt\w+)", m.group(1)):
+                k = consts.get(c)
+                if k and k not in keys:
+                    keys.append(k)
+    for k in ("ppt_scheme", "ppt_serializer", "timeout", "receive_progress", "progress", "reason"):
+        if k not in keys:
+            keys.append(k)
+    return keys
+
+
+VALUES = [
+    V("nil"), V("bool", b=True), V("bool", b=False), V("int", i=5), V("int", i=-1), V("uint", i=7),
+    V("float", f=2.5), V("str", s=""), V("str", s="x_a"), V("str", s="wamp"), V("str", s="mqtt"),
+    V("str", s="bogus"), V("str", s="native"), V("str", s="json"), V("str", s="cbor"), V("str", s="msgpack"),
+    V("bytes", dec="garbage"), V("list", l=[]), V("dict", d={}), V("map", d={}), V("payload", i=3), V("nilpayload"),
+    V("int", i=2 ** 62),
+]
+
+SERIALIZERS = [None, V("str", s="native"), V("str", s="json"), V("str", s="cbor"), V("str", s="msgpack"),
+               V("str", s="bogus"), V("int", i=5), V("nil"), V("bool", b=True), V("bytes", dec="garbage"), V("list", l=[])]
+
+
+def arg_variants(ser):
+    s = ser.get("s") if ser and ser.get("ty") == "str" and ser.get("s") in ("json", "cbor", "msgpack") else "json"
+    return [
+        ("noargs", None, True),
+        ("garbage", [V("bytes", dec="garbage")], False),
+        ("null", [V("bytes", dec="null", ser=s)], False),
+        ("valid", [V("bytes", dec="valid", ser=s, i=41)], False),
+        ("int", [V("int", i=42)], False),
+        ("str", [V("str", s="x")], False),
+        ("payload", [V("payload", i=43)], False),
+        ("nilpayload", [V("nilpayload")], False),
+        ("dict", [V("dict", d={})], False),
+    ]
+
+
+class Hostile:
+    """setup -> hostile burst(s) -> liveness probes -> close"""
+
+    def __init__(self, sid, family, ppt=True, cancel_mode=""):
+        cfg = {"rt_ms": RT, "ppt": ppt, "cancel_mode": cancel_mode}
+        self.b = Builder(random.Random(0), sid, cfg)
+        self.b.s["family"] = family
+        self.b.s["probes"] = []
+        b = self.b
+        self.sub_o = 1
+        self.reg_o = 2
+        self.call_o = 3
+        b.burst([b.api("subscribe", 1), b.api("register", 1), b.api("call", 2, ctx="cancel", prog=True)])
+        b.burst([b.msg("subscribed", req={"op": 1}, sub=11), b.msg("registered", req={"op": 2}, reg=21)])
+        b.pending.pop(1, None)
+        b.pending.pop(2, None)
+        self.sub, self.reg = 11, 21
+        self.inv = 0
+
+    def hostile(self, labels, adv=0, prearm=False):
+        self.b.burst(labels, adv=adv, prearm=prearm)
+
+    def finish(self, probes=True, close=True, answer_call=True):
+        b = self.b
+        if probes:
+            pub = 9000 + len(b.s["bursts"])
+            lab = b.api("subscribe", 2)
+            o4 = b.nop
+            b.burst([b.msg("event", sub=self.sub, pub=pub, tag=77), lab])
+            b.burst([b.msg("subscribed", req={"op": o4}, sub=12)])
+            b.s["probes"] += [{"k": "event", "pub": pub}, {"k": "ret", "o": o4, "r": "ok"}]
+            if answer_call:
+                b.burst([b.msg("result", req={"op": self.call_o}, tag=78)])
+        if close:
+            finish(b, polite=True)
+        return b.s
+
+
+def known_crashers():
+    """The inputs already known to kill the unrepaired client: always run."""
+    out = []
+    specs = [
+        ("ppt-noargs-json", "event", {"ppt_scheme": V("str", s="x_a"), "ppt_serializer": V("str", s="json")}, None, True),
+        ("ppt-null-json", "event", {"ppt_scheme": V("str", s="x_a"), "ppt_serializer": V("str", s="json")}, [V("bytes", dec="null", ser="json")], False),
+        ("ppt-serializer-int", "event", {"ppt_scheme": V("str", s="x_a"), "ppt_serializer": V("int", i=5)}, [V("int", i=1)], False),
+        ("ppt-native-notpayload", "event", {"ppt_scheme": V("str", s="mqtt")}, [V("int", i=1)], False),
+        ("ppt-native-nilpayload", "event", {"ppt_scheme": V("str", s="mqtt")}, [V("nilpayload")], False),
+        ("ppt-json-notbytes", "event", {"ppt_scheme": V("str", s="x_a"), "ppt_serializer": V("str", s="cbor")}, [V("str", s="x")], False),
+        ("e2ee-noserializer", "event", {"ppt_scheme": V("str", s="wamp")}, [V("int", i=1)], False),
+        ("e2ee-noargs", "event", {"ppt_scheme": V("str", s="wamp"), "ppt_serializer": V("str", s="cbor")}, None, True),
+        ("e2ee-notbytes", "invocation", {"ppt_scheme": V("str", s="wamp"), "ppt_serializer": V("str", s="cbor")}, [V("dict", d={})], False),
+        ("ppt-result-noargs", "result", {"ppt_scheme": V("str", s="x_a"), "ppt_serializer": V("str", s="msgpack")}, None, True),
+    ]
+    for name, kind, det, args, noargs in specs:
+        h = Hostile("known:" + name, "known")
+        h.hostile([hostile_msg(h, kind, det, args, noargs)])
+        out.append(h.finish(answer_call=(kind != "result")))
+    return out
+
+
+def hostile_msg(h, kind, details, args, noargs):
+    b = h.b
+    kw = {"details": details}
+    if args is not None:
+        kw["args"] = args
+    elif noargs:
+        kw["noargs"] = True
+    if kind == "event":
+        return b.msg("event", sub=h.sub, pub=8000 + len(b.s["bursts"]), **kw)
+    if kind == "invocation":
+        h.inv += 1
+        return b.msg("invocation", req={"lit": h.inv}, reg=h.reg, **kw)
+    if kind == "result":
+        return b.msg("result", req={"op": h.call_o}, **kw)
+    if kind == "error":
+        return b.msg("error", req={"op": h.call_o}, **kw)
+    if kind == "interrupt":
+        return b.msg("interrupt", req={"lit": max(h.inv, 1)}, **kw)
+    raise ValueError(kind)
+
+
+def gen_c17(rng, tier, keys):
+    scripts = list(known_crashers())
+    # F1a: the PPT matrix
+    matrix = []
+    for scheme in ("x_a", "wamp", "mqtt"):
+        for ser in SERIALIZERS:
+            for (aname, args, noargs) in arg_variants(ser):
+                for kind in ("event", "invocation", "result"):
+                    matrix.append((scheme, ser, aname, args, noargs, kind))
+    if tier == "quick":
+        rng.shuffle(matrix)
+        matrix = matrix[:150]
+    for n, (scheme, ser, aname, args, noargs, kind) in enumerate(matrix):
+        det = {"ppt_scheme": V("str", s=scheme)}
+        if ser is not None:
+            det["ppt_serializer"] = ser
+        h = Hostile("ppt:%s:%s:%s:%s" % (scheme, (ser or {}).get("s", (ser or {}).get("ty", "absent")), aname, kind), "ppt-matrix")
+        h.hostile([hostile_msg(h, kind, det, args, noargs)])
+        if kind == "invocation":
+            h.hostile([{"k": "hret", "inv": h.inv, "r": "ok", "tag": 5}])
+        scripts.append(h.finish(answer_call=(kind != "result")))
+    # F1b: type confusion on every key the client reads x every value type x every message that carries it
+    conf = []
+    for key in keys:
+        for val in VALUES:
+            for kind in ("event", "invocation", "result", "error", "interrupt"):
+                conf.append((key, val, kind))
+    if tier == "quick":
+        rng.shuffle(conf)
+        conf = conf[:120]
+    for (key, val, kind) in conf:
+        h = Hostile("conf:%s:%s:%s" % (key, val.get("s", val["ty"]), kind), "type-confusion")
+        if kind == "interrupt":
+            h.hostile([hostile_msg(h, "invocation", {}, [V("int", i=1)], False)])
+        h.hostile([hostile_msg(h, kind, {key: val}, [V("int", i=9)], False)])
+        if kind in ("invocation", "interrupt"):
+            h.hostile([{"k": "hret", "inv": h.inv, "r": "ok", "tag": 5}])
+        scripts.append(h.finish(answer_call=(kind not in ("result", "error"))))
+    # F2: every message type, unknown / zero / huge ids; client->router types echoed back
+    kinds = ["subscribed", "unsubscribed", "registered", "unregistered", "published", "result", "error", "event",
+             "invocation", "interrupt", "welcome", "challenge", "hello", "authenticate", "subscribe", "unsubscribe",
+             "publish", "register", "unregister", "call", "cancel", "yield"]
+    for kind in kinds:
+        for ident in (0, 424242, 2 ** 53, 2 ** 53 + 1):
+            h = Hostile("unk:%s:%d" % (kind, ident), "unknown-ids")
+            m = h.b.msg(kind, req={"lit": ident}, sub=ident, reg=ident, pub=1, tag=3)
+            h.hostile([m, m])
+            scripts.append(h.finish())
+    # F3: duplicates and replies of the wrong type for a live request id
+    for kind in ("subscribed", "registered", "published", "unsubscribed", "unregistered", "result", "error"):
+        h = Hostile("dup:%s" % kind, "duplicates")
+        lab = h.b.api("subscribe", 3)
+        o = h.b.nop
+        h.hostile([lab])
+        m = h.b.msg(kind, req={"op": o}, sub=13, reg=23, pub=1, tag=3)
+        h.hostile([m, m, m])
+        h.hostile([h.b.msg(kind, req={"op": h.call_o}, sub=14, reg=24, pub=1, tag=4)] * 2)
+        scripts.append(h.finish(answer_call=False))
+    # F4: GOODBYE / ABORT / abrupt close at every position of the base script
+    base = Hostile("base", "end-positions").finish()
+    nb = len(base["bursts"])
+    for pos in range(nb):
+        for how in ("end", "goodbye", "abort"):
+            s = json.loads(json.dumps(base))
+            s["id"] = "endpos:%d:%s" % (pos, how)
+            s["probes"] = []
+            lab = {"k": "end"} if how == "end" else {"k": "msg", "m": {"t": how, "uri": "wamp.close.system_shutdown"}}
+            s["bursts"] = s["bursts"][:pos] + [{"adv": 0, "labels": [lab]}] + s["bursts"][pos:]
+            scripts.append(s)
+            s2 = json.loads(json.dumps(base))
+            s2["id"] = "endin:%d:%s" % (pos, how)
+            s2["probes"] = []
+            s2["bursts"][pos]["labels"] = s2["bursts"][pos]["labels"] + [lab]
+            scripts.append(s2)
+    # F5: timing -- replies exactly at the response timeout / at the cancellation timeout / at the context deadline
+    reps = 6 if tier == "quick" else 40
+    for rep in range(reps):
+        for kind in ("subscribe", "register", "publish", "unsubscribe", "unregister"):
+            for prearm in (True, False):
+                h = Hostile("time:%s:%s:%d" % (kind, "pre" if prearm else "post", rep), "timing")
+                b = h.b
+                if kind == "unsubscribe":
+                    lab = b.api("unsubscribe", 1)
+                elif kind == "unregister":
+                    lab = b.api("unregister", 1)
+                elif kind == "publish":
+                    lab = b.api("publish", 5, ack=True)
+                else:
+                    lab = b.api(kind, 5)
+                o = b.nop
+                h.hostile([lab])
+                h.hostile([b.reply_ok(o)], adv=RT, prearm=prearm)
+                h.hostile([b.reply_ok(o)])          # once more, late
+                scripts.append(h.finish(probes=(kind not in ("unsubscribe",))))
+        for prearm in (True, False):
+            h = Hostile("time:cancel:%s:%d" % ("pre" if prearm else "post", rep), "timing", cancel_mode="kill")
+            b = h.b
+            h.hostile([{"k": "cancel", "o": h.call_o}])
+            h.hostile([b.msg("error", req={"op": h.call_o}, tag=5)], adv=RT, prearm=prearm)
+            h.hostile([b.msg("result", req={"op": h.call_o}, tag=6)])
+            scripts.append(h.finish(answer_call=False))
+            h = Hostile("time:deadline:%s:%d" % ("pre" if prearm else "post", rep), "timing")
+            b = h.b
+            lab = b.api("call", 7, ctx="deadline", deadline_ms=1000)
+            o = b.nop
+            h.hostile([lab])
+            h.hostile([b.msg("result", req={"op": o}, tag=8)], adv=1000, prearm=prearm)
+            h.hostile([b.msg("error", req={"op": o}, tag=9)], adv=RT, prearm=prearm)
+            scripts.append(h.finish())
+            # Close() racing with a reply and with the peer's end
+            h = Hostile("time:close:%s:%d" % ("pre" if prearm else "post", rep), "timing")
+            b = h.b
+            b.nop += 1
+            labs = [{"k": "close", "o": b.nop}, b.msg("result", req={"op": h.call_o}, tag=5), b.msg("goodbye")]
+            if prearm:
+                labs.reverse()
+            h.hostile(labs)
+            b.closed = True
+            scripts.append(h.finish(probes=False, close=False))
+    # F6: directed
+    h = Hostile("dir:ppt-result-unsupported-then-close", "directed", ppt=False)
+    h.hostile([h.b.msg("result", req={"op": h.call_o}, details={"ppt_scheme": V("str", s="x_a")}, tag=5)])
+    scripts.append(h.finish(probes=False))
+    h = Hostile("dir:orphan-awaiting-entry", "directed")
+    b = h.b
+    lab = b.api("call", 8, opts={"ppt_scheme": V("str", s="bogus")})
+    h.hostile([lab])
+    h.hostile([b.msg("error", req={"lit": k}, tag=5) for k in range(1, 9)])
+    scripts.append(h.finish())
+    h = Hostile("dir:orphan-publish-entry", "directed")
+    b = h.b
+    lab = b.api("publish", 8, ack=True, opts={"ppt_scheme": V("str", s="bogus")})
+    h.hostile([lab])
+    h.hostile([b.msg("published", req={"lit": k}, pub=1) for k in range(1, 9)])
+    scripts.append(h.finish())
+    h = Hostile("dir:feeder-after-close", "directed")
+    b = h.b
+    lab = b.api("callprog", 9, ctx="cancel", chunks=3)
+    o = b.nop
+    h.hostile([lab])
+    b.nop += 1
+    h.hostile([{"k": "close", "o": b.nop}])
+    h.hostile([b.msg("goodbye")])
+    h.hostile([{"k": "chunk", "o": o, "final": False}])
+    b.closed = True
+    scripts.append(h.finish(probes=False, close=False))
+    # many messages at once (queue pressure), then the probes
+    h = Hostile("dir:burst-of-64", "directed")
+    h.hostile([h.b.msg("event", sub=h.sub, pub=7000 + i, tag=i + 1) for i in range(60)])
+    scripts.append(h.finish())
+    return scripts
